@@ -170,6 +170,8 @@ def build_ops(r, k, strs, bulk=None):
             ops.append({"op": "push", "s": b(s)})
             if r.random() < 0.05:
                 ops.append({"op": "blen"})
+    if r.random() < 0.08:
+        ops.append({"op": "print_stats"})
     ops += [{"op": "blen"}, {"op": "build"}]
     return ops
 
@@ -184,7 +186,7 @@ def positions(r, n, k, every, extra_out=True):
         c = sorted(x for x in c if 0 <= x <= n)
     if extra_out:
         c += [n + 1, n + 2, n + k, n + k + 1, ((n // k) + 1) * k, ((n // k) + 1) * k + 1, r.choice(HUGE_IDX)]
-    return c
+    return [min(x, 2 ** 64 - 1) for x in c]     # arguments are usize
 
 
 def battery(r, strs, k, light=False):
@@ -233,7 +235,8 @@ def random_episodes(seed, count):
     r = random.Random(seed * 7919 + 9)
     eps = []
     for _ in range(count):
-        k = r.choice(KS)
+        # every k >= 1: now and then an absurdly large one
+        k = r.choice(KS) if r.random() < 0.97 else r.choice([2 ** 31 - 1, 2 ** 32 + 1, 2 ** 63, 2 ** 64 - 1])
         n = rn(r, min(k, 20))
         strs = arrange(r, rlist(r, n))
         eps.append(episode(r, k, strs, "rand", light=r.random() < 0.5))
@@ -304,6 +307,10 @@ def recipe_episodes(seed, thorough=False):
                     for p in (cand if not big else cand[:5]):
                         ep.append({"op": "index_of", "s": b(p)})
                     eps.append({"fam": "rcl", "src": "recipe", "ops": ep})
+    # rear lengths whose 3-byte code has non-zero middle / leading payload
+    # (16512 + 255..257, 16512 + 65535..65537); the long string is mentioned once
+    for rear in [16767, 16768, 16769, 82047, 82048, 82049]:
+        eps.append(long_rear_episode(r, rear, r.choice([2, 3, 4, 7])))
     # k = 1000: one block, exactly one block, two blocks
     for n in ([999, 1000, 1001] + ([2000, 2001] if thorough else [])):
         words = sorted({rword(r, "abcd", 7) + str(i % 7) for i in range(n * 2)}, key=key)[:n]
@@ -325,19 +332,33 @@ def pre_of(s):
     return s[:len(s) // 2]
 
 
+def long_rear_episode(r, rear, k, budget=None):
+    """first (long) / second / third with the given rear length between the
+    first two, none of the last two opening a block; only short strings are
+    queried back"""
+    first, second = with_rear(r, rear, r.choice([0, 2]), True)
+    pad = ["A" * i for i in range(r.randrange(0, max(1, k - 2)))]
+    strs = pad + [first, second, second + "c"]
+    i = len(pad) + 1
+    n = len(strs)
+    ops = [{"op": "new", "k": k}] + [{"op": "push", "s": b(x)} for x in strs] + [
+        {"op": "build"}, {"op": "len"}, {"op": "get", "i": i}, {"op": "get_in_place", "i": i + 1},
+        {"op": "iter_from", "j": i}, {"op": "lend_from", "j": i + 1}, {"op": "lend_from", "j": n},
+        {"op": "index_of", "s": b(second)}, {"op": "index_of", "s": b(second + "c")},
+        {"op": "index_of", "s": b(second + "d")}, {"op": "contains", "s": b(second[:-1])}, {"op": "mem_size"}]
+    ep = {"fam": "rcl", "src": "recipe", "ops": ops}
+    if budget:
+        ep["budget_ms"] = budget
+    return ep
+
+
 def huge_rear_episodes(seed):
     """rear lengths across the 3-byte/4-byte code boundary 2113664 (thorough
     only: the strings are 2 MB long, so each one is mentioned as rarely as possible)"""
     r = random.Random(seed + 77)
     eps = []
     for rear in [2113663, 2113664, 2113665]:
-        first, second = with_rear(r, rear, 2, True)
-        ops = [{"op": "new", "k": 2}, {"op": "push", "s": b(first)}, {"op": "push", "s": b(second)},
-               {"op": "push", "s": b(second + "c")}, {"op": "build"}, {"op": "len"},
-               {"op": "get", "i": 1}, {"op": "get_in_place", "i": 2}, {"op": "iter_from", "j": 1},
-               {"op": "index_of", "s": b(second)}, {"op": "index_of", "s": b(second + "c")},
-               {"op": "index_of", "s": b(second + "d")}, {"op": "lend_from", "j": 3}]
-        eps.append({"fam": "rcl", "src": "recipe", "budget_ms": 120000, "ops": ops})
+        eps.append(long_rear_episode(r, rear, 3, budget=120000))
     return eps
 
 
@@ -347,13 +368,14 @@ def ood_episodes(seed, count):
     r = random.Random(seed * 31 + 12)
     eps = []
     for t in range(count):
-        k = r.choice(KS)
+        k = r.choice(KS) if r.random() < 0.9 else r.choice([2 ** 31 - 1, 2 ** 32 + 1, 2 ** 63, 2 ** 64 - 1])
         n = r.choice([0, 0, 1, 1, 2, k - 1, k, k + 1, 2 * k, 2 * k + 1, r.randrange(0, 25)])
         n = max(0, min(n, 40))
         strs = arrange(r, rlist(r, n))
         ops = build_ops(r, k, strs, bulk=r.random() < 0.3)
         bad = [n, n + 1, n + 2, n + k - 1, n + k, n + k + 1, ((n // k) + 1) * k - 1, ((n // k) + 1) * k,
                ((n // k) + 1) * k + 1, 2 * n + 3] + HUGE_IDX
+        bad = sorted({min(x, 2 ** 64 - 1) for x in bad})     # arguments are usize
         if r.random() < 0.3:
             ops.append({"op": "reload", "mode": r.choice(RELOADS)})
         qs = []
